@@ -7,6 +7,7 @@ import (
 	"fmt"
 	"go/token"
 	"go/types"
+	"os"
 	"sort"
 	"strings"
 
@@ -345,7 +346,7 @@ func (f *Frame) inline(callee *ssa.Function, con *Contract, args, bindings []Val
 	vc.inlined[shortFn(callee)] = true
 	sub := &Frame{vc: vc, fn: callee, con: con, vals: map[ssa.Value]Val{}, params: map[string]Val{}, depth: f.depth + 1,
 		dry: f.dry, rec: f.rec, stack: append(append([]*ssa.Function{}, f.stack...), callee), spec: map[string]Val{},
-		edgeCnd: map[*ssa.BasicBlock]map[*ssa.BasicBlock]string{}, parent: f}
+		edgeCnd: map[*ssa.BasicBlock]map[*ssa.BasicBlock]string{}, parent: f, thinCalls: f.thinCalls}
 	sub.label = fmt.Sprintf("%s%s>", f.label, vc.fresh("i"))
 	if len(args) != len(callee.Params) {
 		unsup("argument count mismatch calling %s", shortFn(callee))
@@ -503,7 +504,7 @@ func (f *Frame) callContract(callee *ssa.Function, con *Contract, args []Val, pc
 	npc := pc
 	// panics
 	if !f.dry {
-		if len(con.Panics) > 0 {
+		if len(con.Panics) > 0 && !f.thinCalls {
 			var conds []string
 			for _, p := range con.Panics {
 				c := env.evalBool(p.When.E)
@@ -644,6 +645,11 @@ func (f *Frame) callContract(callee *ssa.Function, con *Contract, args []Val, pc
 	post := &Env{vc: vc, pkg: callee.Pkg, st: st, old: pre, vars: vars, fn: callee}
 	f.bindGhosts(con, post, false)
 	for _, e := range con.Ensures {
+		if f.thinCalls && len(e.Only) > 0 {
+			// dynamic dispatch over many candidates: only the unscoped (representation-invariant) part of each
+			// candidate's contract is assumed; assuming less is always sound and keeps the query small
+			continue
+		}
 		vc.assume(npc, post.evalBool(e.E))
 	}
 	// copy-out of boxed locals
@@ -915,6 +921,9 @@ func (f *Frame) callFnValue(fv Val, sig *types.Signature, args []Val, pc string,
 		cands = []*ssa.Function{fn}
 		static = true
 	}
+	if os.Getenv("GOVC_DEBUG") != "" {
+		fmt.Fprintf(os.Stderr, "callFnValue in %s: fv=%s static=%v cands=%d\n", shortFn(f.fn), fv.T, static, len(cands))
+	}
 	if len(cands) == 0 {
 		unsup("dynamic call in %s: no candidate functions of type %s", shortFn(f.fn), sig)
 	}
@@ -925,9 +934,10 @@ func (f *Frame) callFnValue(fv Val, sig *types.Signature, args []Val, pc string,
 	// are handled by ONE modular call under the condition "the value is one of them"
 	groups := map[string][]*ssa.Function{}
 	var order []string
+	thin := !static && len(cands) > 8
 	if !static {
 		for _, c := range cands {
-			k := vc.prog.contractSignature(c)
+			k := vc.prog.contractSignature(c, thin)
 			if k == "" {
 				k = "single:" + c.String()
 			}
@@ -935,6 +945,12 @@ func (f *Frame) callFnValue(fv Val, sig *types.Signature, args []Val, pc string,
 				order = append(order, k)
 			}
 			groups[k] = append(groups[k], c)
+		}
+	}
+	if os.Getenv("GOVC_DEBUG") != "" && !static {
+		fmt.Fprintf(os.Stderr, "  dispatch groups=%d thin=%v\n", len(order), thin)
+		for _, k := range order {
+			fmt.Fprintf(os.Stderr, "    group of %d: %s ...\n", len(groups[k]), shortFn(groups[k][0]))
 		}
 	}
 	var conds []string
@@ -986,6 +1002,11 @@ func (f *Frame) callFnValue(fv Val, sig *types.Signature, args []Val, pc string,
 		var r Val
 		var npc string
 		con := vc.prog.contractFor(target)
+		savedThin := f.thinCalls
+		if thin {
+			f.thinCalls = true
+		}
+		defer func() { f.thinCalls = savedThin }()
 		if con != nil && !con.Inline && len(bindings) == 0 {
 			r, npc = f.callContract(target, con, cargs, bpc, bst, ins)
 		} else if f.depth < maxInlineDepth && !f.inStack(target) {
